@@ -55,22 +55,41 @@ def generate(repo):
     keyword_sep = ofield(r'std::string\s+keyword_sep\s*=\s*"([^"]*)"\s*;', "keyword_sep")
     columns = int(ofield(r'size_t\s+columns\s*=\s*(\d+)\s*;', "columns"))
 
-    # DeckOutput::end_record: are defaults still pending at the end of a record written out
-    # (`n*`) or dropped?  Two shapes are understood; anything else is a TranslateError.
+    # What happens to defaults still pending at the end of an item / a record?  Three shapes of
+    # DeckOutput::end_record (+ flush_defaults) and DeckItem::write_vector are understood; anything
+    # else is a TranslateError.
+    #   0  the original code: end_record writes " /" only (pending defaults dropped, counter kept)
+    #   1  452487d0e: end_record writes the pending `n*` when the record holds an explicit value, clears the counter
+    #   2  14c7867b0: DeckOutput::flush_defaults() does that, called by DeckItem::write_vector behind an item
+    #      holding more than one value; end_record only clears the counter
     cpath = os.path.join(repo, "opm/input/eclipse/Deck/DeckOutput.cpp")
     csrc = strip_comments(open(cpath).read())
+    ipath = os.path.join(repo, "opm/input/eclipse/Deck/DeckItem.cpp")
+    isrc = strip_comments(open(ipath).read())
     mm = re.search(r"void\s+DeckOutput::end_record\s*\(\s*\)\s*\{(.*?)\n    \}", csrc, re.S)
     if not mm:
         raise TranslateError("DeckOutput.cpp: end_record() not found")
     body = re.sub(r"\s+", "", mm.group(1))
+    mf = re.search(r"void\s+DeckOutput::flush_defaults\s*\(\s*\)\s*\{(.*?)\n    \}", csrc, re.S)
+    fbody = re.sub(r"\s+", "", mf.group(1)) if mf else None
+    mw = re.search(r"void\s+DeckItem::write_vector\s*\(.*?\)\s*const\s*\{(.*?)\n\}", isrc, re.S)
+    if not mw:
+        raise TranslateError("DeckItem.cpp: write_vector() not found")
+    wbody = re.sub(r"\s+", "", mw.group(1))
+    wloop = ("for(size_tindex=0;index<this->data_size();index++){if(this->defaultApplied(index))stream.stash_default();"
+             "elsestream.write(data[index]);}")
     tail = 'this->os<<"/"<<std::endl;this->record_on=false;'
-    flush_block = 'if(default_count>0&&row_count>0){write_sep();os<<default_count<<"*";row_count++;}default_count=0;'
-    if body == tail:
-        flush = False          # defaults pending at the end of a record are dropped
-    elif body == flush_block + tail:
-        flush = True           # ... are written as `n*` when the record has an explicit value
+    flush_block1 = 'if(default_count>0&&row_count>0){write_sep();os<<default_count<<"*";row_count++;}default_count=0;'
+    flush_fn2 = 'if(default_count>0&&row_count>0){write_sep();os<<default_count<<"*";default_count=0;row_count++;}'
+    if body == tail and fbody is None and wbody == wloop:
+        shape = 0
+    elif body == flush_block1 + tail and fbody is None and wbody == wloop:
+        shape = 1
+    elif body == "default_count=0;" + tail and fbody == flush_fn2 and wbody == wloop + "if(this->data_size()>1)stream.flush_defaults();":
+        shape = 2
     else:
-        raise TranslateError("DeckOutput.cpp: end_record() has a shape the writer model does not know: " + body[:200])
+        raise TranslateError("DeckOutput.cpp/DeckItem.cpp: end_record()/flush_defaults()/write_vector() have a shape the writer model "
+                             "does not know: " + body[:160] + " | " + str(fbody)[:160] + " | " + wbody[:260])
 
     # code keywords: every keyword definition under share/keywords with a "code": {"end": ...} entry
     import json, glob
@@ -138,7 +157,9 @@ def generate(repo):
            f"def outRecordIndent : List UInt8 := {bytes_of(record_indent)}",
            f"def outKeywordSep : List UInt8 := {bytes_of(keyword_sep)}",
            f"def outColumns : Nat := {columns}",
-           f"def outFlushPendingDefaults : Bool := {'true' if flush else 'false'}",
+           "/-- shape of the writer's handling of pending defaults: 0 dropped (original), 1 written by end_record",
+           "(452487d0e), 2 written behind an item holding several values (14c7867b0) -/",
+           f"def outFlushShape : Nat := {shape}",
            "",
            "/-- `str::clean`: the text behind a copied code-keyword block is tested for a code keyword again -/",
            f"def cleanRetestsCodeKeyword : Bool := {'true' if retest else 'false'}",
@@ -147,4 +168,4 @@ def generate(repo):
            "def codeKeywords : List (List UInt8 × List UInt8) := [" +
            ", ".join(f"({bytes_of(a)}, {bytes_of(b)})" for a, b in code_kws) + "]",
            "", "end OpmVerif.Gen.RawConsts", ""]
-    return {"module": "OpmVerif.Gen.RawConsts", "file": "RawConsts.lean", "text": "\n".join(out), "sources": [path, opath, cpath, ppath] + code_sources}
+    return {"module": "OpmVerif.Gen.RawConsts", "file": "RawConsts.lean", "text": "\n".join(out), "sources": [path, opath, cpath, ipath, ppath] + code_sources}
